@@ -1646,7 +1646,15 @@ impl Runner {
         let before = self.w.n.verification.processed_msgs.total;
         let sent_before: u64 = self.w.to_attacker.values().sum();
         // the verified bit is only known after the call: run, then patch the recorded term
-        let term0 = self.msg_term(conn, m, false, data_len, cur_challenge).await;
+        // does the buffer decode at all? asked of the real decoder (e.g. since fix eeb4ec7 a golden ticket
+        // transaction with a payload of the wrong size is undecodable)
+        let decodes = {
+            let b2 = buf.clone();
+            std::panic::catch_unwind(move || Message::deserialize(b2).is_ok()).unwrap_or(true)
+        };
+        let undecodable = Msg::Undecodable(0);
+        let m_for_term: &Msg = if decodes { m } else { &undecodable };
+        let term0 = self.msg_term(conn, m_for_term, false, data_len, cur_challenge).await;
         let r = self.attack_event(conn, NetworkEvent::IncomingNetworkMessage { peer_index: conn, buffer: buf }, term0.clone(), repeat_of).await;
         // the quotas are enforced: nothing is acted upon beyond them
         if let Ok(0) = r {
@@ -1678,7 +1686,7 @@ impl Runner {
         }
         let verified = self.w.n.verification.processed_msgs.total > before;
         if verified {
-            let t = self.msg_term(conn, m, true, data_len, cur_challenge).await;
+            let t = self.msg_term(conn, m_for_term, true, data_len, cur_challenge).await;
             if let Some(last) = self.w.trace.last_mut() {
                 if last.term == term0 {
                     last.term = t;
